@@ -81,6 +81,11 @@ func Generate(r *sim.Rng, prop, tier string, idx int) *sim.Case {
 	default:
 		genC05(r, c, tier, idx)
 	}
+	if c.Knobs["backend"] == 1 && r.Chance(1, 3) {
+		// the Redis server's clock is off against the clients' by a good part of a lease or more
+		lease := time.Duration(c.Knobs["lease_ns"])
+		c.Knobs["redis_clock_skew_ns"] = int64(sim.Pick(r, -2*lease, -lease/2, lease/2, lease, 3*lease))
+	}
 	if r.Chance(1, 3) {
 		c.Knobs["deadline_ctx"] = 1 // time limits of attempts are deadlines of their contexts (in-memory backend)
 	}
